@@ -3,5 +3,6 @@
 //@include hdr_core.rs
 //@include hdr_builder_types.rs
 //@include boxed_spec.rs
+//@include walk_lemma.rs
 //@include hdr_builder.rs
 fn main() {}
